@@ -2,6 +2,7 @@
    Model: theories/Client/Client.v (KMIPProxy + ProxyKmipClient result handling), Framing.v (KMIPProtocol.read).
    Tie K: harness/c19.py (scripted responder and real server stack; Coq compares, ClientCases.check_ccase). *)
 From PK Require Import Base.Bytes Client.Client Client.Framing Client.EndToEnd Client.ClientProofs Client.FramingProofs.
+From PK Require Client.Request Client.RequestProofs.
 From Coq Require Import ZArith List Bool.
 Import ListNotations.
 Open Scope Z_scope.
@@ -183,6 +184,54 @@ Theorem client_call_truncated_raises :
 Proof. exact FramingProofs.client_call_truncated_raises. Qed.
 Print Assumptions client_call_truncated_raises.
 
-(* ---- requests: see RequestProofs (envelope round trip) when present; the decodability of every
-   request payload under every version is established by correspondence K(a) against the real
-   server stack (harness/c19.py server_cases). *)
+(* ---- requests: the envelope the client writes (any version, any operation known to the server, any
+   payload body) is read back by the server-side reader as the same version, operation and payload,
+   and is one TTLV message.  Names of Client.Request / RequestProofs are used qualified because
+   Base.Prim and Client.Client both have constructors called VInt / VBytes. *)
+Theorem request_envelope_roundtrip :
+  forall opmem v opc payload bs, opmem opc = true ->
+    Request.enc_request v opc payload = Some bs ->
+    Request.dec_request opmem bs = Some (Request.version_pair v, opc, payload).
+Proof. exact RequestProofs.request_envelope_roundtrip. Qed.
+Print Assumptions request_envelope_roundtrip.
+
+Example request_envelope_roundtrip_inhabited :
+  exists bs, Request.enc_request Request.V14 10 [66; 0; 148; 7; 0; 0; 0; 1; 49; 0; 0; 0; 0; 0; 0; 0] = Some bs /\ length bs = 120%nat.
+Proof. eexists. split; vm_compute; reflexivity. Qed.
+
+Theorem request_is_frame :
+  forall v opc payload bs, Request.enc_request v opc payload = Some bs -> is_frame bs.
+Proof. exact RequestProofs.request_is_frame. Qed.
+Print Assumptions request_is_frame.
+
+Theorem request_tags_match_enums : RequestProofs.tags_match_enums_statement.
+Proof. exact RequestProofs.tags_match_enums. Qed.
+Print Assumptions request_tags_match_enums.
+
+(* requests_decodable: GIVEN that every request payload class round-trips under every version (C01's
+   theorem; here a hypothesis, discharged on every run by correspondence K(a) against the real server
+   stack: the server decoded each request and the decoded payload fields equal the arguments), every
+   whole request the client emits is decoded by the server to the same version, operation and arguments. *)
+Theorem requests_decodable_partial :
+  forall (A : Type) (enc_payload : Request.kver -> Z -> A -> option bytes)
+         (dec_payload : Request.kver -> Z -> bytes -> option A),
+    (forall v opc a body, enc_payload v opc a = Some body -> dec_payload v opc body = Some a) ->
+    forall opmem v opc a body bs, opmem opc = true -> enc_payload v opc a = Some body ->
+      Request.enc_request v opc body = Some bs ->
+      exists body', Request.dec_request opmem bs = Some (Request.version_pair v, opc, body') /\
+                    dec_payload v opc body' = Some a.
+Proof.
+  intros A enc dec RT opmem v opc a body bs Hm He Hr. exists body. split.
+  - apply RequestProofs.request_envelope_roundtrip; assumption.
+  - apply RT; assumption.
+Qed.
+Print Assumptions requests_decodable_partial.
+
+(* the full statement has no payload-codec hypothesis; it needs C01's schemas for the 21 request payloads *)
+Definition requests_decodable_statement : Prop :=
+  forall (A : Type) (enc_payload : Request.kver -> Z -> A -> option bytes)
+         (dec_payload : Request.kver -> Z -> bytes -> option A)
+         opmem v opc a body bs, opmem opc = true -> enc_payload v opc a = Some body ->
+    Request.enc_request v opc body = Some bs ->
+    exists body', Request.dec_request opmem bs = Some (Request.version_pair v, opc, body') /\
+                  dec_payload v opc body' = Some a.
